@@ -17,12 +17,13 @@ RULE = ('directed corpus + full grid sign x magnitude pool x 22 prefixes (+forei
         'unit systems x return_int, then seeded random magnitudes; QemuImgInfo human texts composed '
         'from size spellings. non-trivial = admissible text with a prefix or a bit unit or a '
         'fractional magnitude, or an inadmissible text; distinct by (text, system, return_int)')
-REQUIRED_CLAUSES = ['under-lazy-translation', 'documented-keyword-call', 'float-result', 'int-result-exact', 'must-raise-ValueError',
+REQUIRED_CLAUSES = ['concurrent-calls-answer-as-alone', 'under-lazy-translation', 'documented-keyword-call', 'float-result', 'int-result-exact', 'must-raise-ValueError',
                     'qemu-size', 'unknown-system']
 ASSUMPTIONS = ['exact answer computed with fractions.Fraction from the generator components',
                'float results are compared within 4 ulp; integer results exactly, except where the '
                'known finding K10 (float arithmetic before ceil) applies by its input predicate']
 INTERPRETER_FLAGS = [[], ['-O'], [], ['-bb']]
+CONCURRENT = lambda case: case.get('kind') == 'stb'          # pure function of its arguments; see vlib/concurrent.py
 SHARDS = {'quick': 4, 'thorough': 16}
 
 IEC_PREFIXES = ['K', 'Ki', 'M', 'Mi', 'G', 'Gi', 'T', 'Ti', 'P', 'Pi', 'E', 'Ei',
@@ -62,7 +63,7 @@ def base_for(prefix, system):
 
 
 def exact_value(sign, mag, prefix, unit, system):
-    q = Fraction(mag if not mag.startswith('.') else '0' + mag)
+    q = _frac(mag)
     if sign == '-':
         q = -q
     if prefix:
@@ -83,7 +84,7 @@ def k10_applies(sign, mag, prefix, unit, system):
     """Input-only predicate of known finding K10: some step of the float
     pipeline (literal -> double, /8, x base**exp) cannot be exact, or the exact
     result is beyond the double range."""
-    m = Fraction(mag if not mag.startswith('.') else '0' + mag)
+    m = _frac(mag)
     if not _is_double(m):
         return True
     if unit in ('b', 'bit'):
@@ -97,6 +98,14 @@ def k10_applies(sign, mag, prefix, unit, system):
         if not _is_double(m * f):
             return True
     return False
+
+
+def _frac(mag):
+    """Exact value of a decimal literal of any length (the oracle lifts the interpreter's int <-> str digit limit for
+    its own conversion only and restores it before the code under test is called)."""
+    from vlib import envmodes
+    with envmodes.int_max_str_digits(0):
+        return Fraction(mag if not mag.startswith('.') else '0' + mag)
 
 
 def to_float(q):
@@ -152,7 +161,7 @@ def _evaluate_plain(ctx, case):
         k10 = k10_applies(sign, mag, prefix, unit, system)
         if exc is not None:
             edge = DBL_MAX * (1 - Fraction(1, 2 ** 50))
-            mag_q = abs(Fraction(mag if not mag.startswith('.') else '0' + mag))
+            mag_q = abs(_frac(mag))
             # K10 as listed: "magnitudes beyond the double range give OverflowError" - the magnitude literal or the
             # quantity itself does not fit a double (not: an intermediate product that the implementation chose)
             if rint and k10 and (abs(exact) >= edge or mag_q >= edge) and isinstance(exc, OverflowError):
@@ -182,7 +191,7 @@ def _evaluate_plain(ctx, case):
                 ctx.clause('int-result-exact')
                 if got != want:
                     ctx.fail('int-result', case, {'text': text, 'got': got, 'want': want})
-        elif abs(Fraction(mag if not mag.startswith('.') else '0' + mag)) >= DBL_MAX * (1 - Fraction(1, 2 ** 50)):
+        elif abs(_frac(mag)) >= DBL_MAX * (1 - Fraction(1, 2 ** 50)):
             # the number in the text is itself beyond the double range (only reachable with bit units, where the quantity
             # is an eighth of it): DONT-CARE zone, see DESIGN section 8
             ctx.clause('magnitude-beyond-double-range-dontcare')
@@ -282,6 +291,19 @@ def qemu_cases(rng, n):
     return out
 
 
+
+def HAMMER(ctx):
+    """Calls for vlib/concurrent.hammer: distinct admitted texts (and two inadmissible ones) in all three systems."""
+    from oslo_utils import strutils
+    out = []
+    for text, system, rint in (('1KB', 'SI', True), ('4KiB', 'IEC', True), ('6Kib', 'IEC', False), ('9MB', 'mixed', True),
+                               ('1125000b', 'SI', False), ('0.5GiB', 'IEC', True), ('7Tb', 'SI', True), ('12B', 'IEC', False),
+                               ('3Mib', 'mixed', False), ('1.5kB', 'SI', True), ('2ZB', 'SI', False), ('88KiB', 'mixed', True),
+                               ('xyz', 'IEC', False), ('1KiB', 'SI', True)):
+        out.append(('string_to_bytes(%r, %r, %r)' % (text, system, rint),
+                    lambda t=text, s=system, r=rint: strutils.string_to_bytes(t, unit_system=s, return_int=r)))
+    return out
+
 def run(ctx):
     idx = 0
 
@@ -361,6 +383,14 @@ def run(ctx):
         mag = digits[:1] + ''.join(rh.choice('0123456789') for _ in digits[1:]) if rh.random() < 0.5 else digits
         emit(dict(kind='stb', sign=rh.choice(['', '', '-']), mag=mag, mag_ok=True, prefix=prefix, unit=unit,
                   system=system, return_int=rh.random() < 0.5))
+    # admitted texts with thousands of digits (around the interpreter's 4300-digit int <-> str limit, which is about
+    # int(), not about the grammar of the text)
+    for nd in (639, 640, 641, 4299, 4300, 4301, 5000):
+        for mag in ('0.' + '5' * nd, '1.' + '0' * (nd - 1) + '1', '0' * nd + '7', '7.' + '0' * nd):
+            for prefix, unit, system in (('K', 'B', 'SI'), ('', 'B', 'IEC'), ('Ki', 'b', 'IEC'), ('M', 'bit', 'mixed')):
+                for rint in (True, False):
+                    emit(dict(kind='stb', sign=rh.choice(['', '-']), mag=mag, mag_ok=True, prefix=prefix, unit=unit,
+                              system=system, return_int=rint))
     for c in qemu_cases(ctx.rng('qemu'), ctx.pick(3000, 600000)):
         emit(c)
     rj = ctx.rng('qemu-json')
